@@ -2,7 +2,7 @@ import Pcore.Proofs.SerRefs
 /-! Helper lemmas for C10, part 7: a decidable check of the sharing hypothesis.  `sharedB c v` collects, in pre-order, the
     reference-free event of every identified node and checks that every node agrees with the FIRST entry of its
     identity.  The driver evaluates it on every op value, so the hypothesis `Shared` of `C10_refs_wellformed` and
-    `C10_roundtrip` is checked at run time for everything the harness generates. -/
+    `C10_roundtrip_partial` is checked at run time for everything the harness generates. -/
 namespace Pcore.Ser
 
 mutual
